@@ -80,14 +80,19 @@ def execute(case):
 
     scn, p0, I = case["scn"], case["pool"], case["I"]
     kind = scn["kind"]
-    interval = I / 8
+    # the model counts eighths of a second; the real clock runs in units of ts/8 s, so that the
+    # real intervals also include values no binary float represents exactly (0.1, 0.8, 1.1 ...)
+    # (only for services whose arithmetic does not multiply by the interval: a LinearController
+    #  moves demand by rate * interval, which must stay on the grid)
+    ts = case.get("ts", 1.0) if kind in ("relative", "stepwise", "buffer", "factory") else 1.0
+    interval = I / 8 * ts
     events = []
-    st = {"env": False, "open": None}
+    st = {"env": False, "open": None, "accesses": 0}
 
     def now8():
-        t = trio.current_time() * 8
-        assert t == int(t), t
-        return int(t)
+        t = trio.current_time() / ts * 8
+        assert abs(t - round(t)) < 1e-6, t
+        return int(round(t))
 
     class TimedPool(RecPool):
         """every access by the service (not by the environment script) is time-stamped"""
@@ -95,6 +100,10 @@ def execute(case):
         def _note(self, write=None):
             if st["env"]:
                 return
+            st["accesses"] += 1
+            if st["accesses"] > 4000:
+                # a service that keeps acting without the clock moving on would never end
+                raise RuntimeError("runaway service: thousands of accesses within one run")
             t = now8()
             if st["open"] is None or st["open"]["t"] != t:
                 close_step()
@@ -178,7 +187,7 @@ def execute(case):
         async with trio.open_nursery() as nursery:
             nursery.start_soon(service)
             for op in sorted(case["env"], key=lambda o: o["t"]):
-                await trio.sleep_until(op["t"] / 8)
+                await trio.sleep_until(op["t"] / 8 * ts)
                 close_step()
                 st["env"] = True
                 try:
@@ -191,7 +200,7 @@ def execute(case):
                 finally:
                     st["env"] = False
                 events.append(dict(op))
-            await trio.sleep_until(case["T"] / 8)
+            await trio.sleep_until(case["T"] / 8 * ts)
             close_step()
             events.append({"e": "End", "t": case["T"]})
             nursery.cancel_scope.cancel()
@@ -291,7 +300,7 @@ def random_case(rnd, scns):
             if kind == "linear" and attr == "demand":
                 attr = "util"
             env.append({"t": t, "e": "Set", "attr": attr, "v": rnd.choice([0, 16, 32, 64]) if attr in ("supply", "demand") else rnd.randrange(0, 5)})
-    return {"scn": scn, "pool": pool, "I": I, "env": env, "T": T, "src": "random"}
+    return {"scn": scn, "pool": pool, "I": I, "env": env, "T": T, "src": "random", "ts": rnd.choice([1.0, 1.0, 0.8, 1.1, 0.3])}
 
 
 def judge(ctx, cases, traces, verdicts):
@@ -342,7 +351,7 @@ def run(ctx):
             paths = rnd.sample(paths, budget)
         for p in paths:
             scn, I, env = case_of_path(p)
-            cases.append({"scn": scn, "I": I, "env": env, "T": 33, "pool": p["pool0"], "src": "tlc-simulate"})
+            cases.append({"scn": scn, "I": I, "env": env, "T": 33, "pool": p["pool0"], "src": "tlc-simulate", "ts": [1.0, 0.8, 1.1][len(cases) % 3]})
     ctx.extra["behaviours_replayed"] = len(cases)
     for _ in range(5000 if thorough else 900):
         cases.append(random_case(rnd, scns))
@@ -358,7 +367,7 @@ def run(ctx):
     ctx.samples = [traces[0], traces[-1]]
     ctx.extra["rule"] = "cases = timed behaviours generated by TLC -simulate (environment instants fixed in the initial state, just before / on / after boundaries) + random timed histories; distinct non-trivial = distinct (service kind, interval, sequence of (event, time))"
     ctx.assumptions = [
-        "virtual time (trio MockClock, autojump); all instants are multiples of 1/8 s, intervals 1/4 .. 5/4 s; runs of up to ~4 s",
+        "virtual time (trio MockClock, autojump); all instants are multiples of ts/8 s with ts in {1, 0.8, 1.1, 0.3} (so real intervals include values without an exact binary representation), model intervals 1/4 .. 5/4; runs of up to ~4 s",
         "an iteration of run() is recognised by its first access to the recording pool at a new instant (every shipped service reads its target in every iteration); FactoryPool is given one initial child so that it reads too",
         "LinearDrift is about the controller's own changes: the drift history restarts when the environment writes the pool's demand",
     ]
